@@ -653,9 +653,32 @@ func (r *run) atomCaught(T *Node, signer neotest.SingleSigner, extra []*transact
 	if nested {
 		r.out.Faults["caught_exception/from-inner-catch-block"]++
 	}
+	// the call flags the caller grants to the failing callee: all, or a restricted set (then the callee only notifies
+	// and throws: what it notified has to vanish just the same)
+	fl := []int64{15, 15, 13, 9, 8}[ap.Pieces[0].B%5]
+	if nested {
+		fl = 15
+	}
+	if fl != 15 {
+		if fl&4 != 0 {
+			evs := []any{[]any{"ev", []any{val}}}
+			for _, e := range effects {
+				if e.([]any)[0] == "ev" {
+					evs = append(evs, e)
+				}
+			}
+			calleeHash, calleeMethod, calleeArgs = k1, "seq", []any{append(evs, []any{"fail", []any{}})}
+		} else {
+			calleeHash, calleeMethod, calleeArgs = k1, "evFail", []any{val}
+		}
+		r.out.Faults[fmt.Sprintf("caught_exception/callflags-%d", fl)]++
+	}
 	mkScript := func(h util.Uint160, m string, a []any) []byte {
 		// caller k0: effect before, tryCall(callee), effect after
 		call := []any{"tryCall", []any{h, m, a}}
+		if fl != 15 {
+			call = []any{"tryCallF", []any{h, m, a, fl}}
+		}
 		if nested {
 			// the failing callee is called from inside the catch block of an inner try; an outer try of the same frame catches
 			call = []any{"nestTry", []any{k1, "fail", []any{}, h, m, a}}
